@@ -391,6 +391,10 @@ pub fn oracle_c15_pairs(base: &str, n: usize, ops: &[(char, usize)]) -> Verdict 
 }
 
 pub fn cases_pairs_c15(tier: &str, stats: &mut Stats, out: &mut Out) {
+    for n in [10usize, 5] {
+        let id = out.oracle_only_id();
+        out.verdict(&id, &format!("scenario pairs-adaptors {}", n), oracle_pairs_adaptors(n));
+    }
     let n = 4usize;
     let mut alphabet: Vec<(char, usize)> = vec![('i', 0), ('i', 1), ('i', 2), ('i', 99)];
     for k in 0..=n {
@@ -557,9 +561,129 @@ pub fn oracle_c08_roundtrip(base: &str, n: usize) -> Verdict {
     }
 }
 
+fn pair_of(item: Result<(Shape, dbase::Record), Error>) -> Result<(usize, usize), String> {
+    let (s, row) = item.map_err(|e| show_err(&e))?;
+    let q = shape_q(&s).ok_or("unexpected shape")?;
+    match row.get("idx") {
+        Some(dbase::FieldValue::Numeric(Some(v))) => Ok((q, *v as usize)),
+        other => Err(format!("row without idx: {:?}", other)),
+    }
+}
+
+/// iterator adaptors and the bulk call on the complete Reader, fresh and used: every pair that comes
+/// out is (shape i, row i), and the sequence is what the list of pairs would give
+pub fn oracle_pairs_adaptors(n: usize) -> Verdict {
+    let good: Vec<PairOp> = (0..n).map(|_| PairOp::Good).collect();
+    let run = match run_pairs("Point", &good) {
+        Ok(r) => r,
+        Err(e) => return Verdict::fail("pairs-panic", e),
+    };
+    let r = catch_unwind(AssertUnwindSafe(|| -> Result<(), String> {
+        let all: Vec<usize> = (0..n).collect();
+        for with in [true, false] {
+            for state in ["fresh", "seek 2", "iterated 1", "iterated 3"] {
+                if state.starts_with("seek") && !with {
+                    continue;
+                }
+                for which in 0..5usize {
+                    let sr = if with { ShapeReader::with_shx(Cursor::new(run.shp.clone()), Cursor::new(run.shx.clone())) } else { ShapeReader::new(Cursor::new(run.shp.clone())) }.map_err(|e| show_err(&e))?;
+                    let dr = dbase::Reader::new(Cursor::new(run.dbf.clone())).map_err(|e| format!("dbase {:?}", e))?;
+                    let mut rdr = Reader::new(sr, dr);
+                    let start = match state {
+                        "seek 2" => {
+                            rdr.seek(2).map_err(|e| show_err(&e))?;
+                            2usize
+                        }
+                        "iterated 1" => {
+                            let _ = rdr.iter_shapes_and_records().take(1).count();
+                            1
+                        }
+                        "iterated 3" => {
+                            let _ = rdr.iter_shapes_and_records().take(3).count();
+                            3
+                        }
+                        _ => 0,
+                    };
+                    let rest: Vec<usize> = all[start.min(n)..].to_vec();
+                    let (name, got, want): (&str, Vec<Result<(usize, usize), String>>, Vec<usize>) = match which {
+                        0 => ("step_by(3)", rdr.iter_shapes_and_records().step_by(3).take(2 * n + 4).map(pair_of).collect(), rest.iter().cloned().step_by(3).collect()),
+                        1 => ("skip(2)", rdr.iter_shapes_and_records().skip(2).take(2 * n + 4).map(pair_of).collect(), rest.iter().cloned().skip(2).collect()),
+                        2 => {
+                            let mut it = rdr.iter_shapes_and_records();
+                            let a = it.nth(1).map(pair_of);
+                            let b = it.nth(1).map(pair_of);
+                            ("nth(1), nth(1)", a.into_iter().chain(b).collect(), rest.get(1).cloned().into_iter().chain(rest.get(3).cloned()).collect())
+                        }
+                        3 => match rdr.read() {
+                            Ok(v) => ("read()", v.into_iter().map(|p| pair_of(Ok(p))).collect(), rest.clone()),
+                            Err(e) => return Err(format!("read() failed: {}", show_err(&e))),
+                        },
+                        _ => ("plain iteration", rdr.iter_shapes_and_records().take(2 * n + 4).map(pair_of).collect(), rest.clone()),
+                    };
+                    let who = format!("{} pairs, reader {} index, state `{}`, {}", n, if with { "with" } else { "without" }, state, name);
+                    let mut qs = vec![];
+                    for g in &got {
+                        match g {
+                            Ok((q, idx)) if q == idx => qs.push(*q),
+                            Ok((q, idx)) => return Err(format!("{}: shape {} came back paired with row {} (all pairs: {:?})", who, q, idx, got)),
+                            Err(e) => return Err(format!("{}: {}", who, e)),
+                        }
+                    }
+                    // the bulk call may also restart from the first pair
+                    if qs != want && !(which == 3 && qs == all) {
+                        return Err(format!("{}: yields the pairs {:?}, expected {:?}", who, qs, want));
+                    }
+                }
+            }
+        }
+        Ok(())
+    }));
+    match r {
+        Ok(Ok(())) => Verdict::pass(),
+        Ok(Err(e)) => Verdict::fail("pairs-misaligned", e),
+        Err(e) => Verdict::fail("pairs-panic", panic_msg(&e)),
+    }
+}
+
+/// C17: the bulk call of the complete Reader on a .dbf whose header announces far more rows than it
+/// holds
+pub fn oracle_dbf_count_peak(announced: u32) -> Verdict {
+    let run = match run_pairs("Point", &[PairOp::Good]) {
+        Ok(r) => r,
+        Err(e) => return Verdict::fail("pairs-panic", e),
+    };
+    let mut dbf = run.dbf.clone();
+    dbf[4..8].copy_from_slice(&announced.to_le_bytes());
+    let input = run.shp.len() + run.shx.len() + dbf.len();
+    let bound = 64 * input + 128 * 1024;
+    for with in [true, false] {
+        let (shp, shx, dbf) = (run.shp.clone(), run.shx.clone(), dbf.clone());
+        crate::alloc::reset();
+        let r = catch_unwind(AssertUnwindSafe(move || {
+            let sr = if with { ShapeReader::with_shx(Cursor::new(shp), Cursor::new(shx)) } else { ShapeReader::new(Cursor::new(shp)) };
+            let (sr, dr) = match (sr, dbase::Reader::new(Cursor::new(dbf))) {
+                (Ok(s), Ok(d)) => (s, d),
+                _ => return,
+            };
+            let mut rdr = Reader::new(sr, dr);
+            drop(rdr.read());
+        }));
+        let (peak, largest) = crate::alloc::measure();
+        if r.is_err() {
+            return Verdict::fail("alloc-panic", "Reader::read panicked".into());
+        }
+        if peak > bound {
+            return Verdict::fail("alloc-disproportionate", format!("{} input bytes (.shp, .shx, .dbf announcing {} rows, holding 1), Reader::read() (index: {}): peak request {} bytes (largest single {}), bound {}", input, announced, with, peak, largest, bound));
+        }
+    }
+    Verdict::pass()
+}
+
 /// replay of the scenarios above
 pub fn oracle_scenario_dbf(prop: &str, a: &[String]) -> Option<Verdict> {
     match (prop, a.first().map(|s| s.as_str())) {
+        (_, Some("pairs-adaptors")) => Some(oracle_pairs_adaptors(a.get(1)?.parse().ok()?)),
+        (_, Some("dbf-count-peak")) => Some(oracle_dbf_count_peak(a.get(1)?.parse().ok()?)),
         ("C08", Some("path-pairs")) => Some(oracle_c08_path(a.get(1)?.parse().ok()?)),
         ("C08", Some("path-names")) => Some(oracle_c08_path_names(a.get(1)?, a.get(2)?)),
         (_, Some("path-overwrite")) => Some(oracle_path_overwrite(a.get(1)?.parse().ok()?, a.get(2)?.parse().ok()?)),
@@ -727,6 +851,10 @@ pub fn cases_dbf(tier: &str, rng: &mut Rng, stats: &mut Stats, out: &mut Out) {
     for (n, k) in [(5usize, 3usize), (4, 1)] {
         let id = out.oracle_only_id();
         out.verdict(&id, &format!("scenario reader-pairs-noshx Point {} {}", n, k), oracle_c15_pairs_noshx("Point", n, k));
+    }
+    for n in [10usize, 4] {
+        let id = out.oracle_only_id();
+        out.verdict(&id, &format!("scenario pairs-adaptors {}", n), oracle_pairs_adaptors(n));
     }
     for (a, b) in [("parcels", "parcels.v2"), ("a.b.c", "a.b"), ("roads", "roads_2024.final"), ("x", "x.shp")] {
         let id = out.oracle_only_id();
